@@ -93,9 +93,51 @@ def r2_header_once(ctx):
             facts |= edge_facts(t, lab)
         ok = ("self._header_written", False) in facts
         ctx.ob(f.where, "the header is written only while `_header_written` is still false", ok, str(sorted(facts)), key="C03-R2|guard")
-        app = any(("'ab'" in c and ("(self._file_obj.mode)==('ab')" in c or "==" in c) and not p) or ("hasattr(self._file_obj, 'mode')" in c and not p) for c, p in facts) or \
-            any("ab" in u(t.ast) for t, lab in g.guards(h))
-        ctx.ob(f.where, "no header is written when appending to an existing file", app, str(sorted(facts)), key="C03-R2|append")
+        # Append mode must be recognisable for every kind of file object the opener table of _get_buffered_file can hand to the writer:
+        #   builtin open(name, 'ab')  -> obj.mode == 'ab'
+        #   gzip.open(name, 'ab')     -> obj.mode is an INTEGER (gzip.WRITE); the 'ab' is on obj.fileobj.mode
+        gb = ix.func("bionumpy.io.files", "_get_buffered_file")
+        openers = set()
+        for a in body_walk(gb.node):
+            if isinstance(a, ast.Assign) and u(a.targets[0]) == "open_func":
+                for x in ast.walk(a.value):
+                    if isinstance(x, (ast.Name, ast.Attribute)) and u(x) in ("open", "gzip.open", "bz2.open", "lzma.open", "io.open"):
+                        openers.add(u(x))
+        ctx.need(openers, "_get_buffered_file: opener table (`open_func = ...`) not found")
+        unknown = openers - {"open", "gzip.open", "io.open"}
+        if unknown:
+            raise Unrecognised(f"{gb.where}: openers {sorted(unknown)}: how they report append mode is not in the checker's table")
+        need = set()
+        if openers & {"open", "io.open"}:
+            need.add("self._file_obj.mode")
+        if "gzip.open" in openers:
+            need.add("self._file_obj.fileobj.mode")
+        # expressions compared with / searched for 'ab' in the guard of the header write (helper predicates of the class inlined one level)
+        seen = set()
+
+        def modes_in(expr, depth=0):
+            for x in ast.walk(expr):
+                if isinstance(x, ast.Attribute) and x.attr == "mode":
+                    seen.add(u(x))
+                if isinstance(x, ast.Call) and u(x.func) == "getattr" and len(x.args) >= 2 and getattr(x.args[1], "value", None) == "mode":
+                    inner = x.args[0]
+                    if isinstance(inner, ast.Call) and u(inner.func) == "getattr" and len(inner.args) >= 2 and isinstance(inner.args[1], ast.Constant):
+                        seen.add(f"{u(inner.args[0])}.{inner.args[1].value}.mode")
+                    else:
+                        seen.add(f"{u(inner)}.mode")
+                if depth < 2 and isinstance(x, ast.Call) and isinstance(x.func, ast.Attribute) and u(x.func.value) == "self":
+                    m = ix.lookup_method(f.cls, x.func.attr) if f.cls is not None else None
+                    if m is not None and "'ab'" in u(m.node):
+                        modes_in(m.node, depth + 1)
+        guard_tests = [t.ast for t, lab in g.guards(h) if t.kind == "test"]
+        for t in guard_tests:
+            modes_in(t)
+        mentions_ab = any("'ab'" in u(t) for t in guard_tests) or any(isinstance(x, ast.Call) and isinstance(x.func, ast.Attribute) and u(x.func.value) == "self" and f.cls is not None and
+                                                                     ix.lookup_method(f.cls, x.func.attr) is not None and "'ab'" in u(ix.lookup_method(f.cls, x.func.attr).node)
+                                                                     for t in guard_tests for x in ast.walk(t))
+        app = mentions_ab and need <= seen
+        ctx.ob(f.where, f"no header is written when appending, whichever opener of _get_buffered_file ({sorted(openers)}) made the file object: the guard looks for 'ab' in "
+               f"{sorted(need)} (a gzip file object reports an integer mode; the 'ab' is on the file it wraps)", app, f"guard consults {sorted(seen)}", key="C03-R2|append")
         bad = g.path([h], [g.exit], blocked=lambda n: n in sets or (n.kind == "stmt" and isinstance(n.ast, ast.Raise)))
         ctx.ob(f.where, "after a header write the flag is set on every path (a second write cannot repeat the header)", bad is None, CFG.show(bad) if bad else "", key="C03-R2|flag-set")
     # flag is never reset, and is False initially
